@@ -437,8 +437,18 @@ func (d dyadic) reduce() dyadic {
 // keep the older rules, which also cover values above 2^53).
 func (p *Path) f2iDyadic(t *Term, bits uint8, signed bool) *Term {
 	d, ok := dyadicChain(t)
-	if !ok || !d.x.signed || t.op == OI2F {
+	if !ok || t.op == OI2F {
 		return nil
+	}
+	if !d.x.signed {
+		// unsigned terms: float64(x), float64(x)*1 and float64(x)*2^-k keep their older rules
+		// (exact also above 2^53); other chains are handled here
+		if isTimesOne(t) != nil {
+			return nil
+		}
+		if _, _, ok := timesPow2(t); ok {
+			return nil
+		}
 	}
 	d = d.reduce()
 	if d.M.BitLen() > 40 || d.N.BitLen() > 700 || d.D.BitLen() > 700 {
@@ -467,6 +477,15 @@ func (p *Path) f2iDyadic(t *Term, bits uint8, signed bool) *Term {
 	neg := st.And(st.Lt(mulc(st.Bin(OSub, rw, one), d.D), xn), st.Le(xn, mulc(rw, d.D)))
 	trunc := st.And(imp(st.Le(zero, xn), pos), imp(st.Lt(xn, zero), neg))
 	p.assertPC(imp(st.And(exact, inRange), trunc))
+	if !d.x.signed {
+		// above the exactness bound fall back to the rational enclosure
+		if e, ok := encloseFloat(t); ok && e.x != nil {
+			up := st.Le(mulc(rw, e.hi.Denom()), mulc(xw, e.hi.Num()))
+			low := st.Lt(mulc(xw, e.lo.Num()), mulc(st.Bin(OAdd, rw, one), e.lo.Denom()))
+			lim := st.Lt(mulc(xw, e.hi.Num()), st.Wide(new(big.Int).Mul(limit, e.hi.Denom())))
+			p.assertPC(imp(st.And(st.Not(exact), lim), st.And(up, low)))
+		}
+	}
 	p.fpCuts++
 	p.notes = append(p.notes, "float chain int*dyadic constants converted exactly while |x|*M < 2^53 (f2iDyadic)")
 	return r
